@@ -33,6 +33,22 @@ def run(ctx, full=False):
         o = rng.randint(1, 3652059)
         dt = datetime.date.fromordinal(o)
         add("base.fromord %d" % o, "ok %d %d %d" % (dt.year, dt.month, dt.day))
+    epoch = datetime.datetime(1, 1, 1)
+    for _ in range(n // 4 + 50):
+        o = rng.choice([1, 2, 3652059, 3652058, rng.randint(1, 3652059)])
+        dt = datetime.datetime.fromordinal(o).replace(hour=rng.choice([0, 23, rng.randint(0, 23)]),
+            minute=rng.choice([0, 59, rng.randint(0, 59)]), second=rng.choice([0, 59, rng.randint(0, 59)]),
+            microsecond=rng.choice([0, 999999, rng.randint(0, 999999)]))
+        delta_us = rng.choice([0, 1, -1, 86400000000, -86400000000, rng.randint(-10**13, 10**13), rng.randint(-4 * 10**17, 4 * 10**17)])
+        flds = "%d %d %d %d %d %d %d" % (dt.year, dt.month, dt.day, dt.hour, dt.minute, dt.second, dt.microsecond)
+        try:
+            r = dt + datetime.timedelta(microseconds=delta_us)
+            e = "ok %d %d %d %d %d %d %d" % (r.year, r.month, r.day, r.hour, r.minute, r.second, r.microsecond)
+        except OverflowError:
+            e = "err OverflowError"
+        add("base.dtadd %s %d" % (flds, delta_us), e)
+        td = dt - epoch
+        add("base.dtmicros %s" % flds, "ok %d" % (((td.days + 1) * 86400 + td.seconds) * 1000000 + td.microseconds))
     for o in (0, -5, 3652060):
         add("base.fromord %d" % o, "err ValueError")
     got = ctx.driver(reqs)
